@@ -200,7 +200,11 @@ def main(tier):
                   extra=1, L=L_, B=B_, hasval=hv, LV=max(B_, 3), focus="batch")
              for (e, L_, B_, hv) in ([(2, 5, 2, False), (2, 6, 3, True)] if tier == "quick" else
                                      [(2, 5, 2, False), (2, 6, 3, True), (3, 7, 2, True), (1, 4, 4, False), (2, 9, 4, False), (3, 3, 1, True)])]
-    specs[-1]["ndev"] = 3 if specs[-1]["B"] % 3 == 0 else 2          # one run on several (forced host-platform) devices: a real pmap
+    for sp in reversed(specs):                # one run on several (forced host-platform) devices: a real pmap (B must be divisible)
+        nd = 3 if sp["B"] % 3 == 0 else (2 if sp["B"] % 2 == 0 else 1)
+        if nd > 1:
+            sp["ndev"] = nd
+            break
     with core.host_devices(4):
         ttraces = core.pmap(c19.train_run, [(10000 + i, sp, core.SEED + i) for i, sp in enumerate(specs)], procs=6)
     tv = tracelib.validate(chk, "trace/Trace_TrainLoop.tla", [{"tid": t["tid"], "cfg": t["cfg"], "events": t["events"]} for t in ttraces], workers=4)
